@@ -99,9 +99,11 @@ def _case(draw):
             us = [us[0]] * nt
         met["ustar"] = us if aslist else us[0]
     if draw(st.booleans()):
-        style = draw(st.sampled_from(["s", "hhmm", "iso", "num"]))
+        style = draw(st.sampled_from(["s", "hhmm", "iso", "num", "newest-first", "unpadded-run"]))
         lab = {"s": lambda i: f"s{i}", "hhmm": lambda i: f"{6 * (i + 1):02d}00", "iso": lambda i: f"2024-06-0{i + 1}T12:00",
-               "num": lambda i: f"{i + 1}.5"}[style]
+               "num": lambda i: f"{i + 1}.5",
+               # labels whose sort order is not the record order
+               "newest-first": lambda i: f"2024-06-1{5 - i}T12:00", "unpadded-run": lambda i: f"run-{8 + i}"}[style]
         met["timestamps"] = [lab(i) for i in range(nt)] if aslist else [lab(0)]
     sol = {"closure": closure}
     if draw(st.booleans()):
